@@ -406,60 +406,48 @@ func (l layout) positions(n int) (fileRank, pos []int) {
 	return
 }
 
-// cutLayouts: every order of n declarations in one file, plus for every order `cuts` cuts into two files
-// (rotating through the cut points), under both lexical orders of the file names or alternating ones.
-func cutLayouts(n, cuts int, bothNames bool) []layout {
+// familyLayouts: the layouts of a set of a generated family. 2 declarations: exhaustive (both orders, in one file and
+// cut into two files under both lexical orders of the file names). 3: every order in one file; every order cut into two
+// files "a_", "z_" (cut point rotating, so that every ordered pair of declarations is met with the first one in the
+// earlier file); every second order also under the file names "z_", "A_" (the textually first file is processed second).
+// 4: every order in one file, every second order cut, every fourth under the other names. More: every order in one file.
+// (The hand-written atoms keep their exhaustive layouts.)
+func familyLayouts(n int) []layout {
+	if n <= 2 {
+		return exhaustiveLayouts(n)
+	}
 	names := [][2]string{{"a_f1.go", "z_f2.go"}, {"z_f1.go", "A_f2.go"}}
+	two := func(p []int, cut, ni int) layout {
+		return layout{Files: []layoutFile{
+			{Name: names[ni][0], Units: append([]int{}, p[:cut]...)},
+			{Name: names[ni][1], Units: append([]int{}, p[cut:]...)},
+		}, Desc: "rotating-cut-2-files"}
+	}
 	var out []layout
 	for pi, p := range permutations(n) {
 		out = append(out, layout{Files: []layoutFile{{Name: "m_f0.go", Units: p}}, Desc: "every-order-1-file"})
-		for c := 0; c < cuts && n > 1; c++ {
-			cut := 1 + (pi+c)%(n-1)
-			for ni, nm := range names {
-				if !bothNames && ni != (pi/(n-1))%2 {
-					continue
-				}
-				out = append(out, layout{Files: []layoutFile{
-					{Name: nm[0], Units: append([]int{}, p[:cut]...)},
-					{Name: nm[1], Units: append([]int{}, p[cut:]...)},
-				}, Desc: "rotating-cut-2-files"})
+		switch n {
+		case 3:
+			cut := 1 + pi%2
+			out = append(out, two(p, cut, 0))
+			if pi%2 == 0 {
+				out = append(out, two(p, 3-cut, 1))
+			}
+		case 4:
+			if pi%2 == 0 {
+				out = append(out, two(p, 1+(pi/2)%3, 0))
+			}
+			if pi%4 == 1 {
+				out = append(out, two(p, 1+(pi/4)%3, 1))
 			}
 		}
 	}
 	return out
 }
 
-// familyLayouts: the layouts of a set of a generated family. 2 declarations: exhaustive; 3: every order, one
-// cut per order under both name orders; 4: every order, one cut per order, name orders alternating; more: every order.
-func familyLayouts(n int) []layout {
-	switch {
-	case n <= 2:
-		return exhaustiveLayouts(n)
-	case n == 3:
-		return cutLayouts(n, 1, true)
-	case n == 4:
-		return cutLayouts(n, 1, false)
-	}
-	return cutLayouts(n, 0, false)
-}
-
-// typecheckLayouts: the layouts translated a second time with -typecheck: 2 declarations exhaustive; otherwise every
-// order in one file and, for every second order, one cut into two files (at most ~60 layouts per set).
+// typecheckLayouts: the layouts translated a second time with -typecheck (at most ~60 per set).
 func typecheckLayouts(n int) []layout {
-	if n <= 2 {
-		return exhaustiveLayouts(n)
-	}
-	var l []layout
-	if n <= 4 {
-		for i, x := range cutLayouts(n, 1, false) {
-			// cutLayouts yields (one file, two files) pairs per order
-			if len(x.Files) == 1 || (i/2)%2 == 0 {
-				l = append(l, x)
-			}
-		}
-	} else {
-		l = cutLayouts(n, 0, false)
-	}
+	l := familyLayouts(n)
 	if len(l) <= 60 {
 		return l
 	}
